@@ -113,8 +113,9 @@ func loopInvariant(v ssa.Value, header *ssa.BasicBlock) bool {
 	if in.Block() == header {
 		return false
 	}
-	inLoop := reachableFrom([]*ssa.BasicBlock{header.Succs[0]}, nil)
-	return !(inLoop[in.Block()] && reachableFrom([]*ssa.BasicBlock{in.Block()}, nil)[header])
+	// in the loop: dominated by the header and able to come back to it (a block of an enclosing loop
+	// that precedes the header reaches it again as well, but is not dominated by it)
+	return !(header.Dominates(in.Block()) && reachableFrom([]*ssa.BasicBlock{in.Block()}, nil)[header])
 }
 
 func runC19(c *Ctx) {
